@@ -78,6 +78,7 @@ type SessCfg struct {
 	AuthMeth  []string            `json:"authmethods,omitempty"`
 	Secret    string              `json:"secret,omitempty"`
 	NoJoin    bool                `json:"nojoin,omitempty"` // do not join in the prologue; a "join" op does it
+	Rewrite   bool                `json:"rewrite,omitempty"` // in-process session that rewrites every EVENT/INVOCATION the moment it is handed over (robustness checks only)
 	TransportAuth bool            `json:"transport_auth,omitempty"` // attach with transport details carrying auth data (websocket)
 	RecvLimit int                 `json:"recv_limit,omitempty"`     // server-side rawsocket receive limit
 	Serializer string             `json:"serializer,omitempty"`     // serializer of the server side for raw websocket links
